@@ -88,7 +88,8 @@ class OsetReport:
         }
 
 
-MAX_PATHS = 20000
+MAX_PATHS = 6000
+TIME_BUDGET_S = float(__import__('os').environ.get('PYVC_OSET_BUDGET_S', '240'))
 
 
 def run_oset(oset: ObligationSet, loader, max_paths=MAX_PATHS, obl_timeout_ms=None) -> OsetReport:
@@ -99,6 +100,9 @@ def run_oset(oset: ObligationSet, loader, max_paths=MAX_PATHS, obl_timeout_ms=No
         prefix = work.pop()
         if rep.paths >= max_paths:
             rep.undecided.append(f"path budget {max_paths} exhausted")
+            break
+        if time.time() - t0 > TIME_BUDGET_S:
+            rep.undecided.append(f"time budget {TIME_BUDGET_S:.0f}s exhausted after {rep.paths} paths")
             break
         rep.paths += 1
         sym.reset_names()
